@@ -226,7 +226,12 @@ func (c *connection) sendWaitReply(callerCtx context.Context, msg Message) (Mess
 	var ch chan replyResult
 	if !fireAndForget {
 		key := msg.SystemBytes()
-		ch = e.replies.register(key)
+		kind := replyControl
+		if isData {
+			kind = replyData
+		}
+
+		ch = e.replies.registerKind(key, kind)
 		defer e.replies.deregister(key)
 	}
 
